@@ -51,8 +51,8 @@ def run(chk, tier):
                              ("hwloc_distances_add_commit", "distances.c", "hwloc__reconnect")):
         oblig.success_needs(chk, P, fn, unit, calls=(callee,))
     chk.rule("R-UNLINK", "removing a distances matrix from the topology's doubly linked list updates the predecessor or the head AND the successor or the tail (all discovered removal sites)")
-    nu = lists.list_unlink(chk, P, ["hwloc_distances_remove_by_depth", "hwloc_distances_release_remove"], "distances.c")
-    chk.floor("R-UNLINK", "removal sites of the distances list", nu, 2)
+    nu = lists.list_unlink(chk, P, [], "distances.c")
+    chk.floor("R-UNLINK", "removal sites of the distances list", nu, 1)
     chk.rule("R-TAILZERO", "zero-tail discipline of the cpukinds array (register after restrict): see C15")
     tailzero.run(chk, P, only_arrays=("cpukinds",), min_arrays=1)
     chk.rule("R-WRITER", "gp_index is produced only by the generator, dup and XML import; object userdata is never written by hwloc except the verbatim copy on dup")
